@@ -1308,6 +1308,15 @@ class Exec:
         sym = {ast.Add: "+", ast.Sub: "-", ast.Mult: "*", ast.Div: "/", ast.FloorDiv: "//", ast.Mod: "%", ast.Pow: "**"}.get(type(op))
         if sym is None:
             raise PyvcUnsupported(f"binop {type(op).__name__}")
+        from .builtins import SecV
+        if isinstance(l, SecV) or isinstance(r, SecV):
+            if isinstance(l, SecV) and isinstance(r, SecV) and sym == "-" and l.kind == r.kind:
+                return SecV("td", v_arith("-", l.sec, r.sec))
+            if isinstance(l, SecV) and isinstance(r, SecV) and sym == "+" and "td" in (l.kind, r.kind) and (l.kind, r.kind) != ("dt", "dt"):
+                return SecV("dt" if "dt" in (l.kind, r.kind) else "td", v_arith("+", l.sec, r.sec))
+            if isinstance(l, SecV) and isinstance(r, SecV) and sym == "-" and (l.kind, r.kind) == ("dt", "td"):
+                return SecV("dt", v_arith("-", l.sec, r.sec))
+            raise PyvcUnsupported("arithmetic on datetime / timedelta values outside the seconds model")
         if isinstance(l, Opaque) or isinstance(r, Opaque):
             return Opaque("text")
         if isinstance(l, str) and sym == "%":
@@ -1503,6 +1512,15 @@ class Exec:
                 yield self.from_resolved(rr, attr), st
             else:
                 yield Builtin(f"{r.name}.{attr}"), st
+        elif type(r).__name__ == "SecV":
+            if r.kind == "td" and attr == "days":
+                sec = r.sec if isinstance(r.sec, Sym) else lift(r.sec)
+                yield Sym(IntT, z3.ToInt(z3.ToReal(sec.e) / 86400) if False else (sec.e / 86400)), st      # z3 integer division = floor for a positive divisor
+            elif r.kind == "td" and attr == "seconds":
+                sec = r.sec if isinstance(r.sec, Sym) else lift(r.sec)
+                yield Sym(IntT, sec.e % 86400), st
+            else:
+                raise PyvcUnsupported(f"attribute {attr} of a datetime / timedelta value")
         elif isinstance(r, ExcVal):
             yield Opaque("excattr"), st
         elif isinstance(r, PyRecord):
